@@ -155,3 +155,78 @@ Print Assumptions C02_constructors_stream_init.
 Print Assumptions C02_real_producers_spec.
 Print Assumptions C02_real_model_history_correct.
 Print Assumptions C02_example_history.
+
+(** ===== build profiles (audit C02-F1): Model/ChaChaStreamChk.v is a second transcription of the
+    wrapper in which every `+ - *`, `+=`, `-=`, unary `-` on a fixed-width integer is
+    [chk prof ty result]: out of range -> panic when prof = Debug, wrapped when prof = Release
+    (`as` casts, wrapping_sub/overflowing_sub, constant shifts wrap in both; assert!, slice start
+    and split_at_mut panic in both).  [obsc] = [obs] + a panic of try_current_pos. ===== *)
+From CC Require Import Model.ChaChaStreamChk Proofs.ChaChaStreamChk.
+
+(** the seven cipher types, real producers, EITHER build profile: every history from `new` takes
+    none of the overflow-check branches - it is observation for observation the history of
+    Model/ChaChaStream.v ... *)
+Theorem C02_profile_model_eq :
+  forall prof v drounds key nonce,
+    Forall is_byte key -> length key = 32%nat -> Forall is_byte nonce ->
+    length nonce = (match v with VDjb => 8 | VIetf => 12 | VX => 24 end)%nat ->
+    forall ops, Forall op_ok ops ->
+    m_run_chk prof v drounds key nonce ops = map OC (m_run v drounds key nonce ops).
+Proof. exact m_run_chk_eq. Qed.
+
+(** ... hence the abstract one, and no observation (apply, seek, current_pos) is a panic *)
+Theorem C02_profile_history_correct :
+  forall prof v drounds key nonce,
+    Forall is_byte key -> length key = 32%nat -> Forall is_byte nonce ->
+    length nonce = (match v with VDjb => 8 | VIetf => 12 | VX => 24 end)%nat ->
+    forall ops, Forall op_ok ops ->
+    m_run_chk prof v drounds key nonce ops
+      = map OC (spec_run (fun s => fst (refill s drounds)) (is12_of v) (init_of v drounds key nonce) 0 ops)
+    /\ existsb obsc_panics (m_run_chk prof v drounds key nonce ops) = false.
+Proof. exact m_run_chk_correct. Qed.
+
+(** one operation on any reachable state, any producers meeting [producers_spec]: same buffer,
+    same observation, in either profile *)
+Theorem C02_profile_step_from_reachable :
+  forall prof refill1 refill4 blk is12 s0, stream_init is12 s0 -> producers_spec refill1 refill4 blk s0 ->
+  forall b pos o, reachable blk is12 s0 b pos -> op_ok o ->
+    step_chk prof refill1 refill4 is12 b o
+    = (fst (step refill1 refill4 is12 b o), OC (snd (step refill1 refill4 is12 b o))).
+Proof. exact step_chk_reachable. Qed.
+
+(** where the invariant is needed and where not (arbitrary producers, arbitrary buffers):
+    try_seek never overflows; try_apply_keystream never overflows as long as [have] is an i8 at all
+    (and [BLOCK - have] with have > 64 panics in BOTH profiles: overflow check / slice start);
+    try_current_pos needs [len <= total] when not fresh *)
+Theorem C02_profile_try_seek_any_buffer :
+  forall prof is12 b pos, try_seek_chk prof is12 b pos = try_seek is12 b pos.
+Proof. exact try_seek_chk_eq. Qed.
+
+Theorem C02_profile_try_apply_any_i8 :
+  forall prof refill1 refill4 is12 b data,
+    N.of_nat (length data) < 2 ^ 64 -> (-128 <= b_have b <= 127)%Z ->
+    try_apply_chk prof refill1 refill4 is12 b data = try_apply refill1 refill4 is12 b data.
+Proof. exact try_apply_chk_eq. Qed.
+
+Theorem C02_profile_try_current_pos :
+  forall prof is12 b tmax,
+    (-128 <= b_have b <= 127)%Z -> (b_fresh b = false -> b_len b <= nblocks is12) ->
+    try_current_pos_chk prof is12 b tmax = PosRet (try_current_pos is12 b tmax).
+Proof. exact try_current_pos_chk_eq. Qed.
+
+(** the checks are live: an UNreachable buffer (len = 2^32 + 1 in the 12-byte-nonce layout) makes
+    `total - left` overflow - debug panics, release returns a wrapped position *)
+Example C02_profile_checks_live :
+  let b := Buf dummy_state (repeat 0 64) 0 (2 ^ 32 + 1) false in
+  try_current_pos_chk Debug true b (2 ^ 128 - 1) = PosPanic
+  /\ try_current_pos_chk Release true b (2 ^ 128 - 1) = PosRet (Some (2 ^ 128 - 64)%Z)
+  /\ ~ len_le_total true b.
+Proof. exact chk_live_current_pos. Qed.
+
+Print Assumptions C02_profile_model_eq.
+Print Assumptions C02_profile_history_correct.
+Print Assumptions C02_profile_step_from_reachable.
+Print Assumptions C02_profile_try_seek_any_buffer.
+Print Assumptions C02_profile_try_apply_any_i8.
+Print Assumptions C02_profile_try_current_pos.
+Print Assumptions C02_profile_checks_live.
